@@ -51,7 +51,8 @@ def gen_case(rng, tier):
             else:
                 ops.append(['unset', k])
         progs.append(ops)
-    return {'progs': progs, 'pauses': rng.randrange(1 << 30)}
+    return {'progs': progs, 'pauses': rng.randrange(1 << 30),
+            'ctx': rng.choice([0.0, 0.0, 0.5, 1.0])}
 
 
 def gen_inject_case(rng, tier):
@@ -79,7 +80,7 @@ def gen_inject_case(rng, tier):
             'head_start': True}
 
 
-def child(p, ops, gpath, logf, seed, inject=0.0, wait_for=None):
+def child(p, ops, gpath, logf, seed, inject=0.0, wait_for=None, ctx=0.0, head=False):
     import random
     core.import_searchkit()
     import fasteners
@@ -90,9 +91,30 @@ def child(p, ops, gpath, logf, seed, inject=0.0, wait_for=None):
     def log(*ev):
         os.write(fd, (json.dumps([time.monotonic_ns(), p] + list(ev)) + '\n').encode())
 
-    cache = MPCache('cid', 'ctype', gpath)
-    lock = cache.cache_lock
     arm = {'n': 0}
+    cur = {}
+
+    def mk_cache():
+        """ an MPCache whose lock acquisitions / releases are logged """
+        c = MPCache('cid', 'ctype', gpath)
+        lk = c.cache_lock
+        orig_acq, orig_rel = lk.acquire, lk.release
+
+        def acquire(*a, **k):
+            r = orig_acq(*a, **k)
+            if r and cur.get('op'):
+                log('acq')
+            return r
+
+        def release():
+            if cur.get('op'):
+                log('rel')
+            return orig_rel()
+        lk.acquire, lk.release = acquire, release
+        return c
+
+    cache = mk_cache()
+    lock = cache.cache_lock
     if inject:
         # transient "database is locked by another process" errors: the first shelve.open of
         # a get() raises dbm.gnu.error (a stand-in class where the _gdbm extension is absent),
@@ -133,37 +155,37 @@ def child(p, ops, gpath, logf, seed, inject=0.0, wait_for=None):
     if wait_for:
         while not os.path.exists(wait_for):
             time.sleep(0.0005)
-    orig_acq, orig_rel = lock.acquire, lock.release
-
-    def acquire(*a, **k):
-        r = orig_acq(*a, **k)
-        if r:
-            log('acq')
-        return r
-
-    def release():
-        log('rel')
-        return orig_rel()
-    lock.acquire, lock.release = acquire, release
     for op in ops:
         if rng.random() < 0.5:
             time.sleep(rng.random() / 2000)
         if inject and op[0] == 'get' and rng.random() < inject:
             arm['n'] = 1 if rng.random() < 0.8 else 2
         log('inv', op)
+        cur['op'] = True
         try:
-            if op[0] == 'set':
-                ret = cache.set(f'k{op[1]}', op[2])
-            elif op[0] == 'bulk':
-                ret = cache.bulk_set({f'k{k}': v for k, v in op[1]})
-            elif op[0] == 'get':
-                ret = cache.get(f'k{op[1]}')
+            def do(c):
+                if op[0] == 'set':
+                    return c.set(f'k{op[1]}', op[2])
+                if op[0] == 'bulk':
+                    return c.bulk_set({f'k{k}': v for k, v in op[1]})
+                if op[0] == 'get':
+                    return c.get(f'k{op[1]}')
+                return c.unset(f'k{op[1]}')
+            if ctx and rng.random() < ctx:
+                # the documented context-manager form: a cache object per operation
+                with mk_cache() as c:
+                    lock = c.cache_lock
+                    ret = do(c)
+                lock = cache.cache_lock
+                cur['op'] = False
             else:
-                ret = cache.unset(f'k{op[1]}')
+                ret = do(cache)
+            cur['op'] = False
             log('resp', ret)
         except Exception as e:  # pylint: disable=broad-except
+            cur['op'] = False
             log('exc', type(e).__name__)
-        if wait_for is None and inject and op is ops[0]:
+        if wait_for is None and head and op is ops[0]:
             open(os.path.join(os.path.dirname(logf), 'go'), 'w').close()
     os.close(fd)
 
@@ -176,7 +198,8 @@ def run_impl(case):
     go = os.path.join(tmp, 'go') if case.get('head_start') else None
     procs = [ctx.Process(target=child, args=(p, ops, os.path.join(tmp, 'g'), logf,
                                              case['pauses'], case.get('inject', 0.0),
-                                             go if p else None))
+                                             go if p else None, case.get('ctx', 0.0),
+                                             bool(case.get('head_start'))))
              for p, ops in enumerate(case['progs'])]
     try:
         for pr in procs:
@@ -297,6 +320,33 @@ def linearizable(ops, budget=200000):
         return 'unknown'
 
 
+def lost_value(ops):
+    """ a get that returned None for a key that was set before the get started and is never
+    unset in the whole history: no linearisation can explain it (cheap, no search) """
+    if any(o[1][0] == 'unset' for o in ops):
+        return None
+    first_set = {}
+    for p, op, _t0, t1, _ret in ops:
+        keys = [op[1]] if op[0] == 'set' else [k for k, _v in op[1]] if op[0] == 'bulk' else []
+        for k in keys:
+            first_set[k] = min(first_set.get(k, t1), t1)
+    for p, op, t0, _t1, ret in ops:
+        if op[0] == 'get' and ret is None and first_set.get(op[1], t0 + 1) < t0:
+            return (p, op)
+    return None
+
+
+def gen_hammer_case(rng, like):
+    """ failing-input search after a correspondence break: one writer and seven readers on one
+    key, every operation in the mode (context-manager form / injected errors) of the history
+    whose trace no longer checked """
+    progs = [[['set', 0, f'v{i % 3}'] for i in range(120)]]
+    for _ in range(7):
+        progs.append([['get', 0] for _ in range(80)])
+    return {'progs': progs, 'pauses': rng.randrange(1 << 30), 'ctx': like.get('ctx', 0.0),
+            'inject': like.get('inject', 0.0), 'head_start': True, 'hammer': True}
+
+
 def judge(rep, item, mobs):
     case, impl = item['case'], item['impl']
     ops = operations(impl)
@@ -332,8 +382,13 @@ def judge(rep, item, mobs):
         rep.traces_validated += 1
         return
     # the lock-order witness failed: is there any linearisation at all?
-    lin = linearizable(ops)
-    if lin == 'unknown':
+    lost = lost_value(ops)
+    lin = None if lost else linearizable(ops)
+    if lost:
+        rep.fail('failing-input', case,
+                 f"process {lost[0]}: {lost[1]} returned None although the key had been set "
+                 "before the get started and is never unset", impl=impl['events'][-30:], model=m)
+    elif lin == 'unknown':
         rep.fail('correspondence-broken', case,
                  f"critical-section trace is not a run of the model: {m['why']}; the search "
                  "for a linearisation of the history ran out of budget", model=m)
@@ -368,9 +423,20 @@ def run(tier, seed, replay_case=None):
         ninj = 12 if tier == 'quick' else 200
         items += core.run_sharded(eval_cases, seed + 1, ninj, {'tier': tier, 'inject': True},
                                   shards=min(core.NCPU, ninj), workers=6)
-    mobs = core.Driver().run([model_case(it) for it in items])
+    drv = core.Driver()
+    mobs = drv.run([model_case(it) for it in items])
     for it, mo in zip(items, mobs):
         judge(rep, it, mo)
+    if replay_case is None and rep.failures and \
+            not any(f['kind'] == 'failing-input' for f in rep.failures):
+        # correspondence broke but no history contradicts the property yet: search for one
+        import random
+        like = rep.failures[0]['case']
+        hrng = random.Random(seed + 77)
+        hitems = eval_cases(None, 0, {'fixed': [gen_hammer_case(hrng, like) for _ in range(8)]})
+        rep.count('hammer_histories', len(hitems))
+        for it, mo in zip(hitems, drv.run([model_case(it) for it in hitems])):
+            judge(rep, it, mo)
     rep.assumptions = ["fasteners.InterProcessLock (fcntl) provides mutual exclusion between "
                        "processes", "shelve/dbm writes of one record are durable and visible to "
                        "the next opener", "CLOCK_MONOTONIC is consistent across processes"]
